@@ -315,6 +315,14 @@ proof fn vac__must_go_on_chain_for(htlc: &HTLCOutputInCommitment, htlc_outbound:
     requires height <= 0x7fff_ffff, htlc.cltv_expiry <= 0x7fff_ffff,
     ensures false
 {}
+// ---- what is actually offered downstream (deep R15 slice of ChannelManager::process_forward_htlcs: the first three arguments of the queue_add_htlc call) ----
+#[derive(Clone, Copy)] pub struct FwdPaymentHash(pub [u8; 32]);
+fn values_offered_downstream(outgoing_amt_msat: &u64, payment_hash: &FwdPaymentHash, outgoing_cltv_value: &u32) -> (r: (u64, FwdPaymentHash, u32))
+    ensures
+    r.0 == *outgoing_amt_msat && r.1 == *payment_hash && r.2 == *outgoing_cltv_value,
+ { (*outgoing_amt_msat, *payment_hash, *outgoing_cltv_value) }
+
+
 // ---- what a completed forward earned (deep R15 slice of ChannelManager::claim_funds_internal) ----
 fn forward_fee_earned(htlc_claim_value_msat: Option<u64>, forwarded_htlc_value_msat: u64) -> (r: Option<u64>)
     requires
